@@ -621,6 +621,7 @@ func c03TargetOffsets(p *Prog, r *Report) {
 		if f.Blocks == nil {
 			continue
 		}
+		c03NoFieldShortcut(p, r, f)
 		k := NewKeyer(f)
 		rel := map[string]bool{}
 		eachInstr(f, func(i ssa.Instruction) {
@@ -885,6 +886,8 @@ func c03PrefixFromZero(p *Prog, r *Report) {
 			r.Check(okScan, "C03.R3", "scan for branches into the prefix covers the function in "+shortName(f), p.Pos(posOf(ret)), "the scanning loop is not bounded by the end of the overwritten prefix",
 				"the loop that looks for branches into the overwritten bytes stops at the end of those bytes: a loop back-edge further down the function that jumps into the entry jump is no longer found, the apply succeeds and that branch lands in the middle of the jump")
 			n++
+			r.Check(*lowMin <= 1, "C03.R3", "branches into the overwritten bytes behind the first are refused by "+shortName(f), p.Pos(posOf(ret)), "refused target offsets start at 1 at the latest",
+				fmt.Sprintf("the check refuses branches into the overwritten entry bytes only from offset %d on: a branch into the middle of the entry jump is accepted and executes the tail of the jump's address bytes as instructions", *lowMin))
 			r.Check(*lowMin <= 0, "C03.R3", "branch to the first overwritten byte is refused by "+shortName(f), p.Pos(posOf(ret)), "refused target offsets start at 0",
 				fmt.Sprintf("the check refuses branches into the overwritten entry bytes only from offset %d on: a branch to the function's first byte (the `JMP start` that ends the compiler's stack-growth path of every non-leaf function) is accepted, so after the prologue was moved to the placeholder it lands on the entry jump — calling the origin placeholder with little stack headroom re-enters the mock", *lowMin))
 		}
@@ -1095,4 +1098,54 @@ func c03RelocateIffOutside[T any](p *Prog, r *Report, f *ssa.Function, cmps []T,
 		r.Check(!reach, "C03.R9", "displacement corrected in "+shortName(f)+" only for targets outside the copied block", p.Pos(posOf(encCall)), "re-encoder unreachable when 0 <= T < size",
 			"the re-encoder is reached for a branch whose target lies inside the copied block: an internal branch of the prologue is re-aimed at the original function and leaves the placeholder in mid-prologue")
 	}
+}
+
+
+// c03NoFieldShortcut: C03.R9 clause — where the relocation code branches on the decoder's PC-relative field offset
+// (Inst.PCRelOff) against a constant, the test separates exactly "no PC-relative field" (offset 0; the field never starts
+// at byte 0 of an instruction) from "has one": PCRelOff <= 0, < 1, == 0 or their complements. A test with slack (<= 1)
+// copies every branch whose opcode is a single byte (CALL/JMP rel32, Jcc rel8) with a stale displacement.
+func c03NoFieldShortcut(p *Prog, r *Report, f *ssa.Function) {
+	n := 0
+	eachInstr(f, func(i ssa.Instruction) {
+		iff, ok := i.(*ssa.If)
+		if !ok {
+			return
+		}
+		bo, ok := iff.Cond.(*ssa.BinOp)
+		if !ok {
+			return
+		}
+		x, y, op := bo.X, bo.Y, bo.Op
+		if _, isC := x.(*ssa.Const); isC {
+			x, y = y, x
+			switch op {
+			case token.LSS:
+				op = token.GTR
+			case token.GTR:
+				op = token.LSS
+			case token.LEQ:
+				op = token.GEQ
+			case token.GEQ:
+				op = token.LEQ
+			}
+		}
+		c, isC := constInt(y)
+		_, fv, isF := fieldRef(resolveLocal(x))
+		if !isC || !isF || fv == nil || fv.Name() != "PCRelOff" || !strings.Contains(fv.Pkg().Path(), "asm") {
+			return
+		}
+		n++
+		exact := false
+		switch op {
+		case token.LEQ, token.GTR:
+			exact = c == 0
+		case token.LSS, token.GEQ:
+			exact = c == 1
+		case token.EQL, token.NEQ:
+			exact = c == 0
+		}
+		r.Check(exact, "C03.R9", "test of the PC-relative field offset in "+shortName(f)+" #"+itoa2(n), p.Pos(posOf(iff)), "separates offset 0 (no field) from every other offset",
+			"the test that decides whether an instruction has a PC-relative field has slack: an instruction whose field starts right after a one-byte opcode (CALL/JMP rel32, Jcc rel8) is treated as having none and is copied into the placeholder with its displacement uncorrected")
+	})
 }
